@@ -156,6 +156,9 @@ let check_dupsort_order acc ~family (o : opts) (out : (string * string) list) ca
 let rfamily st : (string * string) list list =
   let nsrc = (match rint st 8 with 0 -> 0 | 1 -> 1 | 2 -> rrange st 7 12 | _ -> rrange st 2 6) in
   let keyspace = Array.init (rrange st 3 14) (fun i -> if i = 0 && rint st 3 = 0 then "" else Printf.sprintf "%c%02d" (Char.chr (97 + rint st 3)) (i * 3 + rint st 2)) in
+  (* keys of different lengths, some a proper prefix / extension of another *)
+  let keyspace = Array.append keyspace (Array.of_list (List.concat_map (fun key ->
+      if key <> "" && rint st 3 = 0 then [ String.sub key 0 (String.length key - 1); key ^ "x" ] else []) (Array.to_list keyspace))) in
   let keyspace = Array.of_list (List.sort_uniq compare (Array.to_list keyspace)) in
   List.init nsrc (fun si ->
     let mode = rint st 5 in
@@ -188,6 +191,16 @@ let run ~tier ~seed ~only acc =
     ([ [ ("k", "a") ]; [ ("k", "ab") ]; [ ("k", "abc") ]; [ ("", "x"); ("k", "b") ] ], { merge = false; fail_at = 0; dupsort = 2 }, Rd.Iter, nexts 6);
     ([ [ ("k", "a") ]; [ ("k", "ab") ]; [ ("k", "abc") ] ], { merge = true; fail_at = 2; dupsort = 0 }, Rd.Iter, nexts 3);
     ([ [ ("k", "a") ]; [ ("k", "ab") ]; [ ("k", "abc") ] ], { merge = true; fail_at = 1; dupsort = 0 }, Rd.Iter, nexts 3);
+    (* lookups with bounds of different lengths over keys that extend one another *)
+    ([ [ ("c", "1"); ("cz", "2"); ("d", "3"); ("dab", "4"); ("ezz", "5") ]; [ ("c", "6"); ("d", "7"); ("da", "8"); ("e", "9") ] ], { merge = true; fail_at = 0; dupsort = 0 }, Rd.Range ("c", "dab"), nexts 7);
+    ([ [ ("c", "1"); ("cz", "2"); ("d", "3"); ("dab", "4"); ("ezz", "5") ]; [ ("c", "6"); ("d", "7"); ("da", "8"); ("e", "9") ] ], { merge = true; fail_at = 0; dupsort = 0 }, Rd.Range ("d", "dab"), nexts 5);
+    ([ [ ("c", "1"); ("cz", "2"); ("d", "3"); ("dab", "4"); ("ezz", "5") ]; [ ("c", "6"); ("d", "7"); ("da", "8"); ("e", "9") ] ], { merge = true; fail_at = 0; dupsort = 0 }, Rd.Range ("", "ezz"), nexts 9);
+    ([ [ ("c", "1"); ("cz", "2"); ("d", "3"); ("dab", "4"); ("ezz", "5") ]; [ ("c", "6"); ("d", "7"); ("da", "8"); ("e", "9") ] ], { merge = true; fail_at = 0; dupsort = 0 }, Rd.Range ("cz", "e"), nexts 7);
+    ([ [ ("c", "1"); ("cz", "2"); ("d", "3"); ("dab", "4"); ("ezz", "5") ]; [ ("c", "6"); ("d", "7"); ("da", "8"); ("e", "9") ] ], { merge = true; fail_at = 0; dupsort = 0 }, Rd.Get "d", [ Rd.Next; Rd.Next; Rd.Seek "d"; Rd.Next; Rd.Next ]);
+    ([ [ ("c", "1"); ("cz", "2"); ("d", "3"); ("dab", "4"); ("ezz", "5") ]; [ ("c", "6"); ("d", "7"); ("da", "8"); ("e", "9") ] ], { merge = true; fail_at = 0; dupsort = 0 }, Rd.Get "ez", nexts 2);
+    ([ [ ("c", "1"); ("cz", "2"); ("d", "3"); ("dab", "4"); ("ezz", "5") ]; [ ("c", "6"); ("d", "7"); ("da", "8"); ("e", "9") ] ], { merge = true; fail_at = 0; dupsort = 0 }, Rd.Get "da", nexts 3);
+    ([ [ ("c", "1"); ("cz", "2"); ("d", "3"); ("dab", "4"); ("ezz", "5") ]; [ ("c", "6"); ("d", "7"); ("da", "8"); ("e", "9") ] ], { merge = true; fail_at = 0; dupsort = 0 }, Rd.Prefix "d", nexts 5);
+    ([ [ ("c", "1"); ("cz", "2"); ("d", "3"); ("dab", "4"); ("ezz", "5") ]; [ ("c", "6"); ("d", "7"); ("da", "8"); ("e", "9") ] ], { merge = true; fail_at = 0; dupsort = 0 }, Rd.Prefix "da", nexts 4);
     (* seven sources whose first keys arrive in an order that exercises siftup at even and odd slots *)
     (List.map (fun k -> [ (k, "v" ^ k) ]) [ "a0"; "a1"; "a4"; "a2"; "a5"; "a6"; "a3" ], { merge = true; fail_at = 0; dupsort = 0 }, Rd.Iter, nexts 8);
     (List.map (fun k -> [ (k, "v" ^ k) ]) [ "a0"; "a1"; "a4"; "a2"; "a5"; "a6"; "a3" ], { merge = false; fail_at = 0; dupsort = 0 }, Rd.Iter, nexts 8);
